@@ -307,6 +307,12 @@ def _mk_asset(kind, name, nodes, rng):
             orders = {'start': [t0 + pd.Timedelta(1, 'h'), t0 + pd.Timedelta(9, 'd')], 'end': [t0 + pd.Timedelta(3, 'h'), t0 + pd.Timedelta(10, 'd')],
                       'capa': [1., 2.], 'price': [-5., 1.]}
         return eao.assets.OrderBook(name=name, nodes=n0, orders=orders)
+    if kind == 'orderbook_all_out':
+        # every order outside the horizon: variables (one per order) without any mapping row at all
+        t0 = pd.Timestamp(2021, 1, 1)
+        orders = {'start': [t0 - pd.Timedelta(5, 'd'), t0 + pd.Timedelta(9, 'd')], 'end': [t0 - pd.Timedelta(4, 'd'), t0 + pd.Timedelta(10, 'd')],
+                  'capa': [1., 2.], 'price': [1., -5.]}
+        return eao.assets.OrderBook(name=name, nodes=n0, orders=orders)
     if kind == 'early_contract':
         t0 = pd.Timestamp(2021, 1, 1)
         return eao.assets.SimpleContract(name=name, nodes=n1, price='q', min_cap=-1., max_cap=1., end=t0 + pd.Timedelta(1, 'h'))
@@ -338,7 +344,9 @@ def _pf_native(self, case, P):
     T = rng.randint(2, 6)
     tg, _ = N.synthetic_grid(T, None)
     k = case['assets']
-    kinds = [rng.choice(['contract1', 'contract2', 'transport', 'storage', 'orderbook_out', 'late_contract', 'early_contract', 'late_contract']) for _ in range(k)]
+    kinds = [rng.choice(['contract1', 'contract2', 'transport', 'storage', 'orderbook_out', 'late_contract', 'early_contract', 'late_contract', 'orderbook_all_out']) for _ in range(k)]
+    if k > 1 and int(P['seed']) % 5 == 0:
+        kinds[rng.randrange(k - 1)] = 'orderbook_all_out'       # (not in the last place: the assets after it must still sit on their own variables)
     names = rng.sample(ADVERSARIAL_NAMES, k)
     n0, n1 = eao.assets.Node('N0'), eao.assets.Node('N1')
     assets = [_mk_asset(kd, nm, (n0, n1), rng) for kd, nm in zip(kinds, names)]
